@@ -22,7 +22,7 @@ import (
 )
 
 var Spec = engine.Spec{
-	ID: "C05", Run: Run, QuickBud: 6 * time.Minute, ThorBud: 30 * time.Minute,
+	ID: "C05", Run: Run, MapOrders: true, QuickBud: 6 * time.Minute, ThorBud: 30 * time.Minute,
 	Technique: "explicit enumeration of generated schema-valid input JSON (CycloneDX 1.3-1.5 component forests with duplicate, missing and nested references; SPDX 2.3 element/relationship combinations incl. NONE/NOASSERTION/DOCUMENT endpoints) and reduced real SBOMs, each parsed under every layout of a finite re-encoding group (whitespace x member-order permutations x \\uXXXX escapes), twice, auto-detected and with explicit format; closure/uniqueness invariants on every result and snapshot equality across the group; exhaustive seed strings for the identifier generator",
 	Rule:      "case = (generated input, layout) group or one seed tuple; distinct state = input text; invariants: ids non-empty and as unique as the input's, closure when the input's references resolve, generated ids identifier-safe and reproducible, equal canonical snapshot across parses/layouts/detection",
 	Assume: []string{
@@ -390,6 +390,7 @@ func judge(t *engine.T, ls []layout, explicit formats.Format, inputIDs map[strin
 		}
 		k1, k2, k3 := docKey(d1), docKey(d2), docKey(d3)
 		t.Validated(3)
+		t.Observe(k1) // the parsed graph must not depend on the map iteration order
 		if k1 != k2 {
 			return engine.Violate("parse-determinism", "", "layout %s: two parses of the same bytes differ: %s", l.Name, gen.SnapDiff(k1, k2))
 		}
